@@ -84,12 +84,17 @@ static void vf_fullmod_init(vf_fullmod* f, MODULE_TYPE mt, int avx) {
   vf_cpu_avx = avx;
   /* fill_module starts with memset(module,0): reproduced field by field (a block write over the union makes the symbolic
    * executor lose the table pointers, DESIGN.md 2.1) */
-  f->mod.mod.fft64.p_fft = 0;
-  f->mod.mod.fft64.mul_fft = 0;
-  f->mod.mod.fft64.p_conv = 0;
-  f->mod.mod.fft64.p_reim_to_znx = 0;
-  f->mod.mod.fft64.p_ifft = 0;
-  f->mod.mod.fft64.p_addmul = 0;
+  if (mt == FFT64) { /* only the active member of the backend union is touched (cbmc's SMT back end aborts on mixed-member updates) */
+    f->mod.mod.fft64.p_fft = 0;
+    f->mod.mod.fft64.mul_fft = 0;
+    f->mod.mod.fft64.p_conv = 0;
+    f->mod.mod.fft64.p_reim_to_znx = 0;
+    f->mod.mod.fft64.p_ifft = 0;
+    f->mod.mod.fft64.p_addmul = 0;
+  } else {
+    f->mod.mod.q120.p_ntt = 0;
+    f->mod.mod.q120.p_intt = 0;
+  }
   {
     void** fp = (void**)&f->mod.func;
     for (unsigned i = 0; i < sizeof(f->mod.func) / sizeof(void*); ++i) fp[i] = 0;
